@@ -909,6 +909,142 @@ fn deep_world_phase(run: &Run) {
 	run.count("deep_world.seconds", t0.elapsed().as_secs());
 }
 
+/// The orphan pool exactly at its capacity: the headers of a chain of MAX_ORPHAN_SIZE + 1 coinbase-only blocks are
+/// known, the bodies of blocks 2.. arrive first (MAX_ORPHAN_SIZE distinct blocks waiting for their parent, some handed
+/// over again while they wait), the body of block 1 last. "Parents after children and duplicates within the orphan
+/// capacity": every order ends on the last block, with the state of the chain applied in order.
+fn orphan_capacity_phase(run: &Run) {
+	use vcommon::scenarios::mk_block;
+	init_thread(true);
+	let t0 = std::time::Instant::now();
+	let sc = Scratch::new("c03cap");
+	let n = grin_chain::MAX_ORPHAN_SIZE + 1;
+	let mut h = Hist::new(run.seed ^ 0x0CA9, false);
+	let mut tip = h.genesis.hash();
+	let mut chain_blocks = vec![];
+	for i in 0..n {
+		let b = mk_block(&mut h, &tip, &[], 10, if i == 0 { "the_parent_that_arrives_last" } else { "waits_in_the_orphan_pool" });
+		tip = b.hash;
+		chain_blocks.push(b);
+	}
+	let opts: Options = h.opts();
+	let commits = h.all_commits();
+	let mut prng = Prng::new(run.seed ^ 0x0CA9_0CA9);
+	// waiting bodies: indices 1..n (heights 2..=n), delivered in these orders; `repeats` are handed over again after all are waiting
+	let desc: Vec<usize> = (1..n).rev().collect();
+	let asc: Vec<usize> = (1..n).collect();
+	let mut shuf: Vec<usize> = (1..n).collect();
+	prng.shuffle(&mut shuf);
+	let lowest = vec![1usize];
+	let middle = vec![n / 2];
+	let several: Vec<usize> = (0..5).map(|_| 1 + prng.usize_below(n - 2)).collect();
+	let top = vec![n - 1];
+	let orders: Vec<(&str, &Vec<usize>, Vec<usize>)> = vec![
+		("sequential_control", &asc, vec![]),
+		("children_first_descending_no_repeat", &desc, vec![]),
+		("children_first_descending_lowest_again", &desc, lowest),
+		("children_first_ascending_middle_again", &asc, middle),
+		("children_first_shuffled_several_again", &shuf, several),
+		("children_first_shuffled_top_again", &shuf, top),
+	];
+	let mut digests: Vec<(String, String)> = vec![];
+	for (name, order, repeats) in &orders {
+		let dir = sc.sub(name);
+		let chain = match open_chain_with(&dir, &h.genesis, Arc::new(grin_chain::types::NoopAdapter {}), false) {
+			Ok(c) => c,
+			Err(e) => {
+				run.inconclusive(&format!("orphan capacity: node could not be opened: {}", e));
+				continue;
+			}
+		};
+		let replay = json!({"phase": "orphan_capacity", "order": name, "blocks": n, "repeats": repeats});
+		let sig = format!("C03;orphan_capacity;order={}", name);
+		let sequential = *name == "sequential_control";
+		let mut ok = true;
+		if sequential {
+			for gb in &chain_blocks {
+				if let Err(e) = chain.process_block(gb.block.clone(), opts) {
+					run.violation(&format!("{};valid_block_refused;{}", sig, short_err(&e)), &format!("{:?}", e), replay.clone());
+					ok = false;
+					break;
+				}
+			}
+		} else {
+			let hs: Vec<BlockHeader> = chain_blocks.iter().map(|b| b.block.header.clone()).collect();
+			for batch in hs.chunks(32) {
+				let sh: Tip = chain.header_head().unwrap();
+				if let Err(e) = chain.sync_block_headers(batch, sh, opts) {
+					run.violation(&format!("{};valid_header_batch_refused;{}", sig, short_err(&e)), &format!("{:?}", e), replay.clone());
+					ok = false;
+				}
+			}
+			let mut waiting = 0u64;
+			for &i in order.iter().chain(repeats.iter()) {
+				match chain.process_block(chain_blocks[i].block.clone(), opts) {
+					Err(grin_chain::Error::Orphan) => waiting += 1,
+					Ok(_) | Err(grin_chain::Error::Unfit(_)) => {}
+					Err(e) => {
+						run.violation(&format!("{};valid_block_refused;{}", sig, short_err(&e)), &format!("block at height {}: {:?}", i + 1, e), replay.clone());
+						ok = false;
+						break;
+					}
+				}
+			}
+			run.count("orphan_capacity.deliveries_answered_orphan", waiting);
+			run.set_max("orphan_capacity.orphans_waiting_max", chain.orphans_len() as u64);
+			if chain.orphans_len() != n - 1 && ok {
+				// within the capacity nothing may be dropped while waiting
+				run.violation(
+					&format!("{};orphans_dropped_within_capacity", sig),
+					&format!("{} distinct blocks are waiting for their parent (capacity {}), the pool holds {}", n - 1, grin_chain::MAX_ORPHAN_SIZE, chain.orphans_len()),
+					replay.clone(),
+				);
+				ok = false;
+			}
+			if ok {
+				match chain.process_block(chain_blocks[0].block.clone(), opts) {
+					Ok(_) => {}
+					Err(e) => {
+						run.violation(&format!("{};valid_block_refused;{}", sig, short_err(&e)), &format!("the parent: {:?}", e), replay.clone());
+						ok = false;
+					}
+				}
+			}
+		}
+		if ok {
+			match snapshot(&chain, &commits) {
+				Ok(sn) => {
+					let st = h.state(&sn.head.0);
+					if sn.head.0 != tip {
+						run.violation(
+							&format!("{};final_head_not_unique_max", sig),
+							&format!("every block up to height {} was delivered, the head stopped at height {} ({} orphans left)", n, sn.head.1, chain.orphans_len()),
+							replay.clone(),
+						);
+					} else if let Some(d) = compare_with_ref(&sn, &st) {
+						run.violation(&format!("{};final_state_vs_replay", sig), &d, replay.clone());
+					} else {
+						digests.push((name.to_string(), format!("{:?}", sn.body_digest())));
+						run.count("orphan_capacity.orders_completed", 1);
+						run.eval(&format!("orphan_capacity;{}", name), true);
+					}
+				}
+				Err(e) => run.violation(&format!("{};snapshot_failed", sig), &e, replay.clone()),
+			}
+		}
+		drop(chain);
+		let _ = std::fs::remove_dir_all(&dir);
+	}
+	if let Some((n0, d0)) = digests.first() {
+		for (nm, d) in digests.iter().skip(1) {
+			if d != d0 {
+				run.violation("C03;orphan_capacity;final_states_differ_between_orders", &format!("{} vs {}", n0, nm), json!({"phase": "orphan_capacity", "orders": [n0, nm]}));
+			}
+		}
+	}
+	run.count("orphan_capacity.seconds", t0.elapsed().as_secs());
+}
+
 fn main() {
 	let run = Run::from_env("C03", "exploration");
 	init_globals(true);
@@ -972,13 +1108,20 @@ fn main() {
 				run.inconclusive(&format!("deep world phase panicked: {} @ {}", p.message, p.location));
 			}
 		});
+		let cap = s.spawn(|| {
+			if let Err(p) = vcommon::monitor::catch(|| orphan_capacity_phase(&run)) {
+				run.inconclusive(&format!("orphan capacity phase panicked: {} @ {}", p.message, p.location));
+			}
+		});
 		let r = run.spawn_workers(16, &["--dir".to_string(), sc.path.display().to_string()], run.tier.pick(400, 2400));
 		let _ = deep.join();
+		let _ = cap.join();
 		r
 	});
 	drop(sc);
 	run.require("deep world (outputs across two bitmap chunks): delivery orders completed", run.counter("deep_world.orders_completed"), 4);
 	run.require("deep world: fork leaving the chain 60 blocks below the head followed", run.counter("deep_world.deep_fork_orders_completed"), 2);
+	run.require("orphan pool exactly at its capacity: delivery orders completed", run.counter("orphan_capacity.orders_completed"), 6);
 	// cross-order comparison per tree (digests come from different worker processes)
 	let mut by_tree: HashMap<u64, Vec<serde_json::Value>> = HashMap::new();
 	let mut trees: HashMap<u64, serde_json::Value> = HashMap::new();
